@@ -608,11 +608,17 @@ class Solver:
             for lower_st in st.solver.structures:
                 up_dic[lower_st] = {}
                 shielded = set(lower_st.param_mapping.values())
+                renamed_here = set(lower_st.param_mapping.keys())
                 for top, middle in st.param_mapping.items():
-                    if middle in lower_st.param_mapping:
+                    if middle in renamed_here:
                         bottom = lower_st.param_mapping.pop(middle)
                         up_dic[lower_st][top] = bottom
-                    elif top not in lower_st.param_mapping and middle not in shielded:
+                for top, middle in st.param_mapping.items():
+                    if (
+                        middle not in renamed_here
+                        and middle not in shielded
+                        and top not in lower_st.param_mapping
+                    ):
                         up_dic[lower_st][top] = middle
             for lower_st in st.solver.structures:
                 lower_st.param_mapping.update(up_dic[lower_st])
